@@ -1,5 +1,6 @@
 /* C09 - NMT state machine and per-state service gating follow CiA 301.
  * BFS (fixpoint) over NMT commands, API mode changes, one probe frame per service, against a reference FSM. */
+#include <stdlib.h>
 #include "node_common.h"
 
 enum { M_INVALID = 0, M_INIT, M_PREOP, M_OP, M_STOP };
@@ -206,5 +207,30 @@ static int step(int e)
     return MC_OK;
 }
 
-static const mc_harness H = { "C09", "c09", 5, cfg_name, build, ev_name, step, 4, 30 };
+/* in every reachable state: a frame on each of the 2048 base-format identifiers that no service of this node is configured for (everything but NMT, SYNC,
+ * the RPDO, the SDO request, the monitored node's heartbeat and LSS) must reach the application callback exactly once - at most once in STOPPED - send nothing
+ * and leave the node exactly as it was; payload: two bytes that read as a heartbeat / NMT command for this node (thorough: also eight FFh bytes) */
+static void sweep_probe(void)
+{
+    static uint8_t *before, *after; size_t n = w_snap_size();
+    if (M.stopped) return;
+    if (!before) { before = malloc(n); after = malloc(n); }
+    w_save(before);
+    for (int pay = 0; pay < (mc_tier() ? 2 : 1); pay++) for (uint32_t id = 1; id < 0x800; id++) {
+        uint8_t d[8] = { 5, LID, 0, 0, 0, 0, 0, 0 }; int cb;
+        if (id == 0x80 || id == 0x200u + NID || id == 0x600u + LID || (!TT && id == 0x709) || id == 0x7E5) continue;
+        if (pay) memset(d, 0xFF, 8);
+        w_obs_clear();
+        w_rx(&Node, id, pay ? 8 : 2, d); mc_steps++;
+        cb = nc_count_cb(CB_IF_RECEIVE);
+        if (cb > 1 || (cb == 0 && M.mode != M_STOP)) { mc_fail("unclaimed-frame-delivery", "identifier sweep: frame %03X (no service of this node listens there) handed to the application %d time(s) in mode %d", id, cb, M.mode); break; }
+        if (OBS.ntx) { mc_fail("unclaimed-frame-delivery", "identifier sweep: frame %03X (no service of this node listens there) answered with a frame on %03X", id, OBS.tx[0].id); break; }
+        if (OBS.ncb != cb) { mc_fail("unclaimed-frame-delivery", "identifier sweep: frame %03X (no service of this node listens there) caused a callback of kind %d", id, OBS.cb[0].kind == CB_IF_RECEIVE && OBS.ncb > 1 ? OBS.cb[1].kind : OBS.cb[0].kind); break; }
+        w_save(after);
+        if (memcmp(before, after, n)) { mc_fail("unclaimed-frame-effect", "identifier sweep: frame %03X (no service of this node listens there) changed the state of the node in mode %d", id, M.mode); break; }
+    }
+    w_restore(before); w_obs_clear();
+}
+
+static const mc_harness H = { "C09", "c09", 5, cfg_name, build, ev_name, step, 4, 30, sweep_probe };
 int main(int argc, char **argv) { return mc_main(argc, argv, &H); }
